@@ -11,12 +11,13 @@ OptDep == M2("condition", S("service_started"), "required", B(FALSE))
 Img == M1("image", S("img"))
 Base ==
   M([k \in {"services", "networks", "volumes", "secrets", "configs"} |->
-     CASE k = "services" -> M([s \in {"a", "b", "off"} |->
+     CASE k = "services" -> M([s \in {"a", "b", "c", "off"} |->
               CASE s = "a" -> M([f \in {"image", "depends_on", "networks", "volumes", "secrets", "configs", "healthcheck"} |->
                                    CASE f = "image" -> S("img") [] f = "healthcheck" -> M2("test", L(<<S("CMD"), S("true")>>), "interval", S("10s")) [] f = "depends_on" -> M1("b", Dep) [] f = "networks" -> M1("n", Null)
                                      [] f = "volumes" -> Sq1(M3("type", S("volume"), "source", S("v"), "target", S("/d")))
                                      [] f = "secrets" -> Sq1(M1("source", S("s"))) [] f = "configs" -> Sq1(M1("source", S("c")))])
                 [] s = "b" -> Img
+                [] s = "c" -> Img
                 [] s = "off" -> M2("image", S("img"), "profiles", Sq1(S("p")))])
        [] k = "networks" -> M1("n", EmptyM)
        [] k = "volumes" -> M1("v", EmptyM)
@@ -50,12 +51,25 @@ Edits == <<
   [r |-> "external-volume-no-params", f |-> Nest(<<"volumes", "v">>, M2("external", B(TRUE), "labels", M1("l", S("1"))))],
   [r |-> "secret-one-source", f |-> Nest(<<"secrets", "s">>, M1("file", Tagged(Null, "reset")))],
   [r |-> "secret-one-source", f |-> Nest(<<"secrets", "s">>, M1("environment", S("E")))],
+  [r |-> "secret-one-source", f |-> Nest(<<"secrets", "s">>, M2("driver", S("custom"), "environment", S("E")))],
+  [r |-> "secret-one-source", f |-> Nest(<<"secrets", "s">>, M2("driver", S("custom"), "file", Tagged(Null, "reset")))],
   [r |-> "config-one-source", f |-> Nest(<<"configs", "c">>, M1("file", Tagged(Null, "reset")))],
   [r |-> "config-one-source", f |-> Nest(<<"configs", "c">>, M1("content", S("x")))],
   [r |-> "acyclic", f |-> Nest(<<"services", "b">>, M1("depends_on", M1("a", Dep)))],
   [r |-> "acyclic", f |-> SvcA(M1("depends_on", M1("a", Dep)))],
   [r |-> "acyclic", f |-> Nest(<<"services", "b">>, M1("links", Sq1(S("a"))))],
   [r |-> "acyclic", f |-> Nest(<<"services", "b">>, M1("ipc", S("service:a")))]
+>>
+\* edits that take two later files: the second refines one element of what the first added
+Edits2 == <<
+  \* a required dependency on a disabled service stays required when a sibling entry of the same list is made optional
+  [r |-> "depends-on-exists", f |-> SvcA(M1("depends_on", L(<<S("c"), S("off")>>))), f2 |-> SvcA(M1("depends_on", M1("c", M1("required", B(FALSE)))))],
+  [r |-> "depends-on-exists", f |-> SvcA(M1("depends_on", L(<<S("off"), S("c")>>))), f2 |-> SvcA(M1("depends_on", M1("c", M2("condition", S("service_healthy"), "required", B(FALSE)))))],
+  \* the second source of a secret arrives in a later file
+  [r |-> "secret-one-source", f |-> Nest(<<"secrets", "s">>, M1("driver", S("custom"))), f2 |-> Nest(<<"secrets", "s">>, M1("environment", S("E")))]
+>>
+Valids2 == <<
+  [f |-> SvcA(M1("depends_on", L(<<S("c"), S("off")>>))), f2 |-> SvcA(M1("depends_on", M2("c", M1("required", B(FALSE)), "off", M1("required", B(FALSE)))))]
 >>
 \* variants that stay consistent and must keep loading
 Valids == <<
@@ -68,14 +82,19 @@ Valids == <<
   SvcA(M1("volumes_from", Sq1(S("container:ext")))),
   Nest(<<"volumes", "v">>, M1("external", B(TRUE))),
   Nest(<<"secrets", "s">>, M2("external", B(TRUE), "file", Tagged(Null, "reset"))),
+  Nest(<<"secrets", "s">>, M1("driver", S("custom"))),
   Nest(<<"services", "b">>, M1("depends_on", M1("off", OptDep)))
 >>
 VARIABLE cs
-Init == \/ \E i \in 1..Len(Edits) : cs = [kind |-> "edit", rule |-> Edits[i].r, base |-> Base, fragment |-> Edits[i].f, doc |-> Override(Base, Edits[i].f),
+Init == \/ \E i \in 1..Len(Edits) : cs = [kind |-> "edit", rule |-> Edits[i].r, base |-> Base, fragment |-> Edits[i].f, fragment2 |-> Null, doc |-> Override(Base, Edits[i].f),
                                           broken |-> Broken(Override(Base, Edits[i].f))]
-        \/ \E i \in 1..Len(Valids) : cs = [kind |-> "valid", rule |-> "none", base |-> Base, fragment |-> Valids[i], doc |-> Override(Base, Valids[i]),
+        \/ \E i \in 1..Len(Valids) : cs = [kind |-> "valid", rule |-> "none", base |-> Base, fragment |-> Valids[i], fragment2 |-> Null, doc |-> Override(Base, Valids[i]),
                                            broken |-> Broken(Override(Base, Valids[i]))]
-        \/ cs = [kind |-> "valid", rule |-> "none", base |-> Base, fragment |-> EmptyM, doc |-> Base, broken |-> Broken(Base)]
+        \/ \E i \in 1..Len(Edits2) : LET d == Override(Override(Base, Edits2[i].f), Edits2[i].f2) IN
+                                        cs = [kind |-> "edit", rule |-> Edits2[i].r, base |-> Base, fragment |-> Edits2[i].f, fragment2 |-> Edits2[i].f2, doc |-> d, broken |-> Broken(d)]
+        \/ \E i \in 1..Len(Valids2) : LET d == Override(Override(Base, Valids2[i].f), Valids2[i].f2) IN
+                                         cs = [kind |-> "valid", rule |-> "none", base |-> Base, fragment |-> Valids2[i].f, fragment2 |-> Valids2[i].f2, doc |-> d, broken |-> Broken(d)]
+        \/ cs = [kind |-> "valid", rule |-> "none", base |-> Base, fragment |-> EmptyM, fragment2 |-> Null, doc |-> Base, broken |-> Broken(Base)]
 Next == UNCHANGED cs
 Spec == Init /\ [][Next]_cs
 \* the negative half is precise: an edit breaks exactly its rule; valid variants break none
